@@ -198,6 +198,7 @@ def native_check(scratch, model, inputs, spec):
 
 def c16_obligations(funcs, tier, scratch, say, cap):
     res = []
+    tasks = []   # (args of run_queries): the groups are independent and run concurrently
     to_rgb = pick(funcs, "::to_rgb", "Color<[f32; 3], Hsl>")
     to_hsl = pick(funcs, "::to_hsl", "Color<[f32; 3], Rgb>")
 
@@ -315,7 +316,7 @@ def c16_obligations(funcs, tier, scratch, say, cap):
     q.append(("grays: s = 0 => r = g = b = l, every float h, l in [0,1]", f"(assert (and {unit('h')} {unit('l')}))\n(assert (not (and " +
               " ".join(f"(fp.eq {a} l)" for a in chans(vg)) + ")))\n", "unsat"))
     q.append(("witness: a saturated mid-sextant colour", dom + f"(assert (and (fp.gt h6 {c(1.0)}) (fp.lt h6 {c(1.5)}) (fp.gt s {c(0.8)}) (fp.eq l {c(0.5)})))\n", "sat"))
-    res.append(run_queries("c16_hsl_to_rgb_float", sym, defs, q, dom_txt_hsl,
+    tasks.append(("c16_hsl_to_rgb_float", sym, defs, q, dom_txt_hsl,
                            "no panic; channels in [0,1]; channel order matches the hue sextant; hue 1 == hue 0; grays"))
 
     # ---- RGB -> HSL: in range, grays
@@ -334,7 +335,7 @@ def c16_obligations(funcs, tier, scratch, say, cap):
     # the tiny-value region where the old saturation formula blew up, on its own (fast for the solver)
     tiny = f"(assert (and (fp.leq r {c(2.0 ** -24)}) (fp.leq g {c(2.0 ** -24)}) (fp.leq b {c(2.0 ** -24)})))\n"
     q.append(("h, s, l in [0,1] for every float colour below 2^-24", dom_all + tiny + f"(assert (not (and {inr('H')} {inr('S')} {inr('L')})))\n", "unsat", ("rgb-to-hsl-at", out_of_unit)))
-    res.append(run_queries("c16_rgb_to_hsl_float", sym, defs, q, dom_txt_rgb + "; grays and the sub-2^-24 region: every float", "no panic; h, s, l in [0,1]; grays have s = 0, l = v"))
+    tasks.append(("c16_rgb_to_hsl_float", sym, defs, q, dom_txt_rgb + "; grays and the sub-2^-24 region: every float", "no panic; h, s, l in [0,1]; grays have s = 0, l = v"))
 
     # ---- round trip on a dyadic lattice (quick) / all floats (thorough, capped)
     sym = Sym(funcs, ["r", "g", "b"])
@@ -356,8 +357,35 @@ def c16_obligations(funcs, tier, scratch, say, cap):
     if tier == "thorough":
         lat16 = on("r", 16) + on("g", 16) + on("b", 16)
         q.append(("round trip within 1e-4 on the k/16 lattice", dom + lat16 + f"(assert (not (and {close('R2', 'r')} {close('G2', 'g')} {close('B2', 'b')})))\n", "unsat", ("rgb-roundtrip-at", far)))
-    res.append(run_queries("c16_float_round_trip", sym, defs, q, "r, g, b = k/8 (quick: 729 colours, every sextant); k/16 (thorough)",
+    tasks.append(("c16_float_round_trip", sym, defs, q, "r, g, b = k/8 (quick: 729 colours, every sextant); k/16 (thorough)",
                            "to_hsl then to_rgb returns the colour within 1e-4 per channel"))
+    # ---- "no in-range input panics", debug builds included: the same functions from the MIR built
+    #      *with* debug assertions (the range debug_assert!s of both conversions become panic paths)
+    try:
+        funcs_d = M.parse_mir(M.dump_mir(REPO, [], scratch, "C16", debug_assertions=True))
+        to_rgb_d = pick(funcs_d, "::to_rgb", "Color<[f32; 3], Hsl>")
+        to_hsl_d = pick(funcs_d, "::to_hsl", "Color<[f32; 3], Rgb>")
+        sym = Sym(funcs_d, ["r", "g", "b"])
+        _, pan_h = sym.call(to_hsl_d, [color3("r", "g", "b")])
+        dom_r = f"(assert (and {unit('r')} {unit('g')} {unit('b')}))\n"
+        qd = [("to_hsl never panics (debug assertions on), every float r, g, b in [0,1]", dom_r + f"(assert {pan_h})\n", "unsat", ("rgb-to-hsl-at", lambda i, o: False)),
+              ("witness: the debug assertion is reachable when the input is out of range", f"(assert (fp.gt r {c(2)}))\n(assert {pan_h})\n", "sat")]
+        tasks.append(("c16_rgb_to_hsl_debug_asserts", sym, "", qd, "every float r, g, b in [0,1]; MIR built with debug assertions",
+                               "no panic: the function's own range assertions (0 <= h,s,l <= 1, exactly) hold"))
+        sym = Sym(funcs_d, ["h", "s", "l"])
+        _, pan_r = sym.call(to_rgb_d, [color3("h", "s", "l")])
+        dom_h = f"(assert (and {unit('h')} {unit('s')} {unit('l')}))\n"
+        qd = [("to_rgb never panics (debug assertions on), h = k/32, s, l on k/8", dom_h + on("h", 32) + on("s", 8) + on("l", 8) + f"(assert {pan_r})\n", "unsat", ("hsl-to-rgb-at", lambda i, o: False)),
+              ("to_rgb never panics (debug assertions on), full saturation, every float h, l in [0,1]", dom_h + f"(assert (fp.eq s {c(1)}))\n(assert {pan_r})\n", "unsat", ("hsl-to-rgb-at", lambda i, o: False))]
+        if tier == "thorough":
+            qd.append(("to_rgb never panics (debug assertions on), every float h, s, l in [0,1]", dom_h + f"(assert {pan_r})\n", "unsat", ("hsl-to-rgb-at", lambda i, o: False)))
+        tasks.append(("c16_hsl_to_rgb_debug_asserts", sym, "", qd, "lattice h=k/32, s,l=k/8; s = 1 with every float h, l; (thorough: every float h, s, l); MIR built with debug assertions",
+                               "no panic: channels stay within [0,1] exactly, the sextant arm is never unreachable"))
+    except M.Unsupported as e:
+        res.append(dict(name="c16_debug_asserts", harness="c16_debug_asserts", cfg="mir(bare,debug)+cvc5", kind="smt", domain="", verdict="inconclusive",
+                        why=f"outside the translator's subset: {e}"))
+    with ThreadPoolExecutor(max_workers=len(tasks) or 1) as ex:
+        res += list(ex.map(lambda a: run_queries(*a), tasks))
     return res
 
 
